@@ -110,6 +110,8 @@ var verifFrags = []string{
 	// calls with too few / too many arguments against signatures with an optional parameter before a required one, singleton definitions on an unknown receiver, multiple assignment from an unknown constant as a method's last statement
 	"def q(a = 1, b)\nb\nend\nq()", "def q(a, b = 1, c)\nc\nend\nq(1)", "def q(a = 1, k:)\nk\nend\nq()", "def q(*r, z)\nend\nq()", "def q(a = 1, b = 2)\nend\nq(1, 2, 3)", "def q(k:, j: 2)\nend\nq(j: 1)",
 	"class K2\ndef initialize(a = 1, b)\nend\nend\nK2.new", "def x.y\nend", "def self.y\nend", "def f\na, b = Foo\nend", "def f\na, b = foo\nend", "def f(\"\")\nend\nf(1)", "def f(:a)\nend\nf(1)", "def f(1)\nend\nf(1)",
+	// an inheritance cycle whose classes are reopened with the superclass repeated, then used
+	"class A < B\nend\nclass B < A\nend\nclass A < B\nend\nclass B < A\nend\nA.new.zz", "class A < A\nend\nclass A < A\nend\nA.new.zz",
 }
 
 const verifCoreN = 36
